@@ -58,16 +58,20 @@ def family(e):
     return "(crash %s)" % type(e).__name__
 
 
-def leaf_order(ncs):
-    """The innermost NodeCoords in gather order (Processor._leaf_node_coords, re-stated independently)."""
+def leaf_order(ncs, doc_ids=None):
+    """The innermost NodeCoords in gather order (Processor._leaf_node_coords, re-stated independently).  With
+    doc_ids (the identities of the document's containers): an EMPTY list that is no object of the document - the
+    virtual result of an Array slice that selects nothing - designates no node and is left out."""
     NC = mutgen.init_env()["NodeCoords"]
     out = []
     for nc in ncs:
         node = nc.node
         if isinstance(node, list) and len(node) > 0 and isinstance(node[0], NC):
-            out.extend(leaf_order(node))
+            out.extend(leaf_order(node, doc_ids))
         elif isinstance(node, NC):
-            out.extend(leaf_order([node]))
+            out.extend(leaf_order([node], doc_ids))
+        elif doc_ids is not None and mutgen.is_empty_virtual(nc, doc_ids):
+            continue
         else:
             out.append(nc)
     return out
@@ -125,7 +129,7 @@ def delete_record(p, path):
         return rec
     coords = state["top"]
     after = docenc.canon_doc_text(docenc.encode(p.data)[0])
-    order = leaf_order(coords)
+    order = leaf_order(coords, shadow.kids)
     # YAML merge keys: the mappings whose .merge list was non-empty go to the model beside the document;
     # outside the model (skipped): a deletion inside a mapping other mappings merge in (ruamel propagates it to
     # the referring mappings), and the merge-key removal branch itself (parent has merge keys and parentref is
